@@ -31,3 +31,18 @@ prop("C19", "exploration",
       "entries under include_sent_only/include_received_only, entries without confirmation time under confirmation-time bounds, "
       "sent entries under amount bounds when the signed and magnitude readings disagree, tie order"],
      required_hist=["result:proper-subset", "lookups"])
+
+prop("C01", "exploration",
+     "workload A: the real selection::select_coins_and_fee + inputs_and_change (hook H1) on an in-memory backend: exhaustive small "
+     "scope (every multiset of <=3 mature unspent outputs over 6 values x directed amounts around total-fee(i,o)-c, 0, u64::MAX-k x "
+     "change 0..4 x max_outputs {1,2,500} x both strategies x both fee modes, dealt across shards) plus sampled wallets of 0-8 outputs "
+     "(all five statuses, coinbase maturity, two accounts, heights 0-20, minconf {0,1,2,10}, change {0..5,17,255}, max_outputs "
+     "{0,1,2,3,500}); workload B: owner::init_send_tx (normal, estimate_only, late_lock + finalize) and process_invoice_tx on a real "
+     "LMDB wallet/chain, context read back, raw LMDB dump compared after refusals. Oracle: independent spendability predicate, u128 "
+     "sums, grin_core tx_fee, logical step counter. distinct = (amount class, fee mode, strategy, change count, max_outputs, number "
+     "eligible, ineligible present, outcome, inputs selected, change outputs); non-trivial = all (every case reaches the selection code)",
+     [{"name": "c01", "cmd": "c01", "shards": {"quick": 12, "thorough": 16}, "crash_is_violation": True}],
+     {"quick": 300000, "thorough": 3000000},
+     ["wallet output sets whose total value does not fit in u64 are not generated (a wallet's outputs exist on one chain, so their sum is bounded by the supply)",
+      "exhaustive=true refers to the bounded small scope of workload A only"],
+     required_hist=["A:built", "B:send-built", "B:invoice-paid", "B:late-lock-built"])
